@@ -28,6 +28,8 @@ import re
 import sys
 import time
 sys.path.insert(0, os.path.dirname(os.path.abspath(__file__)))
+# bound on the number of children / elements per node; the thorough tier of the driver raises it
+DEPTH = int(os.environ.get("MIRSYM_DEPTH", "3"))
 from mirsym import Engine, parse_mir, STD_MODELS, Unsupported, PanicFound, Ref, Opaque, is_sym
 
 
@@ -217,7 +219,7 @@ def main():
                     ("tuple variant", "impl ser::SerializeTupleVariant for SerializeTupleVariant", "serialize_field")]
         for label, header, mname in seq_like:
             fn, endf = method(header, mname), method(header, "end")
-            for n in range(0, 4):
+            for n in range(0, DEPTH + 1):
                 for bad in [None] + list(range(n)):
                     cur.clear()
                     cur.update({"events": [], "results": {j: (errv(j) if bad == j else okv(j)) for j in range(n)}, "key_results": {}})
@@ -299,7 +301,7 @@ def main():
         vsfn = method("impl ser::SerializeStructVariant for SerializeStructVariant", "serialize_field")
         vsend = method("impl ser::SerializeStructVariant for SerializeStructVariant", "end")
         for label, fn, endf in (("struct", sfn, send), ("struct variant", vsfn, vsend)):
-            for n in range(0, 4):
+            for n in range(0, DEPTH + 1):
                 for bad in [None] + list(range(n)):
                     names = ["f%d" % j for j in range(n)]
                     cur.clear()
